@@ -220,3 +220,10 @@ package mysql
 //@   noinline SetData
 //@   requires len(packet.header) == 4
 //@   loop 0 invariant types-follow-the-null-bitmap: pos == 11 + (len(values) + 7) / 8 + 2 * i && 0 <= i
+
+// A rewritten column definition serializes its default-value length as a length-encoded integer (the form
+// ParseResultField reads back), never as eight raw bytes; an untouched definition is relayed as received.
+//@ func (field *ColumnDescription) Dump() (out []byte)
+//@   props C12
+//@   ensures untouched-relayed-as-received: field.data != nil && !field.changed ==> len(out) == len(field.header) + len(field.data)
+//@ structural mysql-default-value-length-is-lenenc props C12 : nocall ColumnDescription.Dump base.Uint64ToBytes
